@@ -57,28 +57,48 @@ def seeded_table():
 
 def claims_table():
     man = json.load(open(f"{V}/MANIFEST.json"))
-    out = ["| property | queries (quick) | deepest K | solver time (s) | wall (s) | verdicts |", "|---|---|---|---|---|---|"]
+    out = ["| property | tier of the evidence on file | solver queries | discharged | deepest K | solver time (s) | wall (s) | verdicts |",
+           "|---|---|---|---|---|---|---|---|"]
     for c in man.get("checks", []):
-        pid = c.get("property") or c.get("id")
+        pid = c.get("property_id")
         ep = f"{V}/evidence/{pid}.json"
         if not os.path.exists(ep):
-            out.append(f"| {pid} | | | | | no evidence |")
+            out.append(f"| {pid} | | | | | | | no evidence |")
             continue
         e = json.load(open(ep))
-        det = e.get("details") or e
-        qs = det.get("queries") or det.get("results") or []
-        ks = [q.get("K") or 0 for q in qs if isinstance(q, dict)]
+        cov = e.get("coverage", {})
+        qs = cov.get("queries") or []
+        ks = [q.get("K") or 0 for q in qs]
         st = {}
         for q in qs:
-            if isinstance(q, dict):
-                st[q.get("status")] = st.get(q.get("status"), 0) + 1
-        solver = sum((q.get("solver_s") or 0) for q in qs if isinstance(q, dict))
-        out.append(f"| {pid} | {len(qs)} | {max(ks) if ks else ''} | {round(solver)} | {det.get('wall_s', '')} | "
+            st[q.get("status")] = st.get(q.get("status"), 0) + 1
+        out.append(f"| {pid} | {e.get('tier')} | {cov.get('obligations')} | {cov.get('discharged')} | {max(ks) if ks else ''} | "
+                   f"{round(cov.get('solver_seconds') or 0)} | {round(e.get('wall_s') or 0)} | "
                    f"{', '.join(f'{k}: {v}' for k, v in sorted(st.items(), key=lambda kv: str(kv[0])))} |")
     return "\n".join(out)
 
 
-TABLES = {"FINDINGS": findings_table, "SEEDED": seeded_table, "CLAIMS": claims_table}
+def asbuilt_table():
+    sys.path[:0] = [V, f"{V}/.deps", os.environ.get("VERIF_REPO", "/repo")]
+    import importlib, warnings
+    warnings.simplefilter("ignore")
+    out = ["| property | real code encoded | bounds | assumptions (count) | outside the claim |", "|---|---|---|---|---|"]
+    for i in range(1, 58):
+        pid = f"C{i:02d}"
+        try:
+            mod = importlib.import_module(f"lunaverif.props.c{i:02d}")
+        except Exception as ex:
+            out.append(f"| {pid} | (module failed to import: {ex}) | | | |")
+            continue
+        enc = getattr(mod, "ENCODED", [])
+        enc = "; ".join(enc) if isinstance(enc, (list, tuple)) else str(enc)
+        ass = getattr(mod, "ASSUMPTIONS", [])
+        out.append(f"| {pid} | {short(enc, 300)} | {short(getattr(mod, 'BOUNDS', ''), 420)} | {len(ass)} | "
+                   f"{short(getattr(mod, 'OUTSIDE', ''), 300)} |")
+    return "\n".join(out)
+
+
+TABLES = {"FINDINGS": findings_table, "SEEDED": seeded_table, "CLAIMS": claims_table, "ASBUILT": asbuilt_table}
 
 
 def main():
